@@ -1838,6 +1838,17 @@ impl Node {
 
     fn remove_children(&self, state: &State) {
         self.foreach_child(&mut |index, child| {
+            // A panic out of became_necessary (e.g. the height limit) leaves the children it
+            // had not reached yet unlinked; there is no edge to undo for those.
+            let linked = self
+                .parent_child_indices
+                .borrow()
+                .my_parent_index_in_child_at_index
+                .get(index as usize)
+                .is_some_and(|&i| i >= 0);
+            if !linked {
+                return;
+            }
             child.remove_parent(index, self.as_parent_dyn_ref());
             child.check_if_unnecessary(state);
         })
